@@ -132,6 +132,10 @@ impl<'a> FullnameSerializer<'a> {
         if namespace_id == self.xot.no_namespace_id {
             // no namespace, therefore no prefix to show
             Ok(None)
+        } else if namespace_id == self.xot.xml_namespace() {
+            // the XML namespace is always written with the reserved xml prefix,
+            // which needs no declaration
+            Ok(Some(self.xot.xml_prefix()))
         } else {
             let prefix_id = self
                 .top()
@@ -172,6 +176,10 @@ impl<'a> FullnameSerializer<'a> {
         if namespace_id == self.xot.no_namespace_id {
             // no namespace, therefore no prefix to show
             Ok(None)
+        } else if namespace_id == self.xot.xml_namespace() {
+            // the XML namespace is always written with the reserved xml prefix,
+            // which needs no declaration
+            Ok(Some(self.xot.xml_prefix()))
         } else {
             let prefix_id = self
                 .top()
